@@ -337,10 +337,32 @@ func runConfig(c *Ctx) {
 			c.vio("C18", "listen-roundtrip", fmt.Sprintf("the listen address %q (address %q, zone %q, port %q) is split into (%q, %q, %q), error %v", text, a, z, p, ip, zone, port, err), map[string]interface{}{"listen": text})
 		}
 	}
-	// (2) whole files
-	for i := 0; i < c.Scale(300, 6000); i++ {
+	// (2) whole files: first every listen spelling once as the only `listen` of a well-formed section
+	type fixed struct {
+		v6     bool
+		listen string
+	}
+	var fixedCases []fixed
+	for _, l := range listenPool4 {
+		fixedCases = append(fixedCases, fixed{false, l})
+	}
+	for _, l := range listenPool6 {
+		fixedCases = append(fixedCases, fixed{true, l})
+	}
+	nRandom := c.Scale(300, 6000)
+	for i := 0; i < len(fixedCases)+nRandom; i++ {
 		root := []interface{}{}
 		has6, has4 := r.Pct(55), r.Pct(70)
+		var fx *fixed
+		if i < len(fixedCases) {
+			fx = &fixedCases[i]
+			has6, has4 = false, false
+			key := "server4"
+			if fx.v6 {
+				key = "server6"
+			}
+			root = append(root, key, ymap("plugins", ylist(ymap("dns", ystr("1.1.1.1"))), "listen", ystr(fx.listen)))
+		}
 		if has6 {
 			root = append(root, "server6", genServer(c, true))
 		}
@@ -411,8 +433,8 @@ func runConfig(c *Ctx) {
 		if err != nil {
 			k := errClass(err)
 			if k == 0 {
+				// an error the model has no class for: it is compared anyway (and cannot match)
 				c.Count("config:unclassified-error")
-				continue
 			}
 			obs = fmt.Sprintf("(OError %d)", k)
 			c.Count(fmt.Sprintf("config:error-class-%d", k))
@@ -424,6 +446,65 @@ func runConfig(c *Ctx) {
 		c.Eval(text, err == nil)
 		if i%37 == 0 {
 			c.Sample(map[string]interface{}{"config": text, "loaded": err == nil, "error": fmt.Sprint(err)})
+		}
+		// monitor: a single listen address with a parseable address of the right family, a decimal port
+		// (or none) and no multicast expansion must load to exactly that listener
+		if fx != nil && len(strings.Fields(fx.listen)) == 1 {
+			ipS, zone, portS, serr := config.VerifSplitHostPort(fx.listen)
+			ip := net.ParseIP(ipS)
+			okFam := ip != nil && (ip.To4() == nil) == fx.v6
+			if ipS == "" {
+				okFam = true
+				if fx.v6 {
+					ip = net.IPv6unspecified
+				} else {
+					ip = net.IPv4zero
+				}
+			}
+			// "an integer" is what strconv.Atoi accepts (a sign and leading zeros included)
+			_, aerr := strconv.Atoi(portS)
+			decimal := portS == "" || aerr == nil
+			expand := ip != nil && zone == "" && (ip.IsLinkLocalMulticast() || ip.IsInterfaceLocalMulticast())
+			if serr == nil && okFam && decimal && !expand {
+				want := 67
+				if fx.v6 {
+					want = 547
+				}
+				if portS != "" {
+					want, _ = strconv.Atoi(portS)
+				}
+				var sc *config.ServerConfig
+				if err == nil {
+					sc = cfg.Server4
+					if fx.v6 {
+						sc = cfg.Server6
+					}
+				}
+				if sc == nil || len(sc.Addresses) != 1 || !sc.Addresses[0].IP.Equal(ip) || sc.Addresses[0].Port != want || sc.Addresses[0].Zone != zone {
+					c.vio("C18", "listen-exact", fmt.Sprintf("listen %q should give exactly [%v]%%%s:%d, config.Load returned %v (error %v)", fx.listen, ip, zone, want, func() interface{} {
+						if sc == nil {
+							return nil
+						}
+						return sc.Addresses
+					}(), err), input)
+				}
+			}
+			if serr == nil && !decimal && err == nil {
+				c.vio("C18", "listen-port", fmt.Sprintf("listen %q has the port text %q, which is not an integer, and was accepted", fx.listen, portS), input)
+			}
+		}
+		// monitor: an item of a plugins list that is not a one-key map is an error
+		for _, k := range []string{"server6", "server4"} {
+			if sv, ok := rootMap[k].(map[string]interface{}); ok {
+				if items, ok := sv["plugins"].([]interface{}); ok {
+					for _, it := range items {
+						m, isMap := it.(map[string]interface{})
+						if (!isMap || len(m) != 1) && err == nil {
+							c.vio("C18", "plugin-item-accepted", fmt.Sprintf("%s.plugins has the item %v, which is not a map with exactly one key, and the file was accepted", k, it), input)
+						}
+					}
+				}
+			}
 		}
 		// monitors: defaults, family, plugin order
 		if err == nil {
